@@ -517,11 +517,11 @@ class FakeLambdaClient:
         lo, hi = lat
         return lo + (hi - lo) * rng.random()
 
-    def _prologue(self, opname, n_updates, token):
+    def _prologue(self, opname, n_updates, token, kinds=None):
         w = self.w
         w.api_calls += 1
         k = w.api_calls
-        w.rec("api-begin", call=k, op=opname, n=n_updates, token=token)
+        w.rec("api-begin", call=k, op=opname, n=n_updates, token=token, kinds=kinds)
         d = self._latency(0)
         if d > 0:
             w.sim.sleep(d, True, f"api-latency({opname})")
@@ -554,7 +554,7 @@ class FakeLambdaClient:
 
     def checkpoint_durable_execution(self, DurableExecutionArn, CheckpointToken, Updates, **kw):  # noqa: N803
         w, be = self.w, self.be
-        k = self._prologue("checkpoint", len(Updates), CheckpointToken)
+        k = self._prologue("checkpoint", len(Updates), CheckpointToken, kinds=[[u.get("Type"), u.get("Action")] for u in Updates])
         be.advance()
         if CheckpointToken != be.latest_token:
             w.hit("stale-token")
